@@ -1471,11 +1471,23 @@ impl Driver {
                 }
                 found
             };
+            // ... or the unexpired entry in front of it was removed by the size eviction of the very
+            // same run, after the purge scan had stopped at it (attributed from the harness' log)
+            let blocker_evicted = !blocked
+                && lv == Liveness::ExpiredTti
+                && is_sync
+                && pre.entries.iter().any(|p| {
+                    post.entry(p.key).is_none()
+                        && self.truth.cur(p.key).map(|l| l.vid == p.vid).unwrap_or(false)
+                        && matches!(self.truth.liveness(p.key, now), Liveness::Live | Liveness::Maybe)
+                });
             for (kk, vv, _) in &expired_held {
-                stale_now.insert((*kk, *vv), if blocked { "F-S5".into() } else { "other".into() });
+                stale_now.insert((*kk, *vv), if blocked || blocker_evicted { "F-S5".into() } else { "other".into() });
             }
             let sig = if blocked {
                 F_S5_SIG.to_string()
+            } else if blocker_evicted {
+                F_S5C_SIG.to_string()
             } else {
                 format!("held:expired-entry-after-maintenance:{}", if lv == Liveness::ExpiredTtl { "ttl" } else { "tti" })
             };
@@ -1706,6 +1718,7 @@ pub fn fs3_blocked(post: &Snap, e: &crate::cut::ESnap, applicable: bool) -> bool
 }
 
 pub const F_S5_SIG: &str = "F-S5:idle-expired-entry-held:access-order-purge-scan-stopped-at-unexpired-entry-in-front:reads-applied-before-the-writes-that-admitted-them";
+pub const F_S5C_SIG: &str = "F-S5c:idle-expired-entry-held:purge-scan-stopped-at-unexpired-entry-that-the-size-eviction-of-the-same-run-removed";
 pub const F_S3W_SIG: &str = "F-S3w:invalidated-entry-held:write-order-and-access-order-purge-scans-stopped-at-entries-stamped>=valid_after:ops-queued-out-of-timestamp-order";
 
 /// The write-order analogue (time_to_live configured): is `e` behind a write-order node whose
